@@ -53,4 +53,5 @@ registry! {
     c28::C28,
     c29::C29,
     c31::C31,
+    c32::C32,
 }
